@@ -8,6 +8,8 @@ import (
 	"fmt"
 	"os"
 	"strings"
+	"sync"
+	"time"
 
 	"github.com/janelia-flyem/dvid/datatype/common/downres"
 	"github.com/janelia-flyem/dvid/datatype/common/labels"
@@ -23,6 +25,8 @@ type jwrite struct {
 	Size   [3]int      `json:"size"`
 	Paints []blk.Paint `json:"paints"`
 	Child  bool        `json:"child,omitempty"` // commit the node and continue on a new child version before this write
+	Par    int         `json:"par,omitempty"`   // consecutive writes with the same non-zero group are issued concurrently
+	Delay  int         `json:"delay,omitempty"` // microseconds this write of a concurrent group starts after the group's first
 }
 
 type jcase struct {
@@ -35,6 +39,8 @@ type jcase struct {
 	Writes []jwrite      `json:"writes,omitempty"`
 	Win    [3]int        `json:"win,omitempty"`
 	WN     int           `json:"wn,omitempty"`
+	WD     [3]int        `json:"wd,omitempty"` // window size per axis (default WN cubed)
+	BS     [3]int        `json:"bs,omitempty"` // labelmap BlockSize (default 16,16,16)
 }
 
 func hx(b []byte) string { return `(hx "` + hex.EncodeToString(b) + `"%string)` }
@@ -133,13 +139,38 @@ func main() {
 		}
 		httpSeq++
 		name := fmt.Sprintf("lm%d", httpSeq)
-		if err := dv.NewInstance(uuid, "labelmap", name, map[string]string{"BlockSize": "16,16,16", "MaxDownresLevel": fmt.Sprint(c.Max)}); err != nil {
+		bs := c.BS
+		if bs == [3]int{} {
+			bs = [3]int{16, 16, 16}
+		}
+		wd := c.WD
+		if wd == [3]int{} {
+			wd = [3]int{c.WN, c.WN, c.WN}
+		}
+		if err := dv.NewInstance(uuid, "labelmap", name, map[string]string{"BlockSize": fmt.Sprintf("%d,%d,%d", bs[0], bs[1], bs[2]), "MaxDownresLevel": fmt.Sprint(c.Max)}); err != nil {
 			fmt.Fprintln(os.Stderr, err)
 			os.Exit(2)
 		}
+		post := func(i int, node string) uint64 {
+			w := c.Writes[i]
+			arr := blk.Expand(w.Size[0], w.Size[1], w.Size[2], w.Paints)
+			url := fmt.Sprintf("/api/node/%s/%s/raw/0_1_2/%d_%d_%d/%d_%d_%d", node, name, w.Size[0], w.Size[1], w.Size[2], w.Off[0], w.Off[1], w.Off[2])
+			if i > 0 {
+				url += "?mutate=true"
+			}
+			r := dv.Post(url, blk.ToBytes(arr))
+			switch {
+			case r.Status == 200:
+				return 0
+			case r.Status >= 500 && strings.Contains(string(r.Body), "anic"):
+				return 2
+			}
+			return 1
+		}
 		var status []uint64
 		failed := false
-		for i, w := range c.Writes {
+		for i := 0; i < len(c.Writes) && !failed; {
+			w := c.Writes[i]
 			if w.Child {
 				if r := dv.Commit(uuid); r.Status != 200 {
 					fmt.Fprintln(os.Stderr, "commit:", r.Status, string(r.Body))
@@ -153,47 +184,58 @@ func main() {
 				uuid = child
 				run.Count("http:child-version")
 			}
-			arr := blk.Expand(w.Size[0], w.Size[1], w.Size[2], w.Paints)
-			url := fmt.Sprintf("/api/node/%s/%s/raw/0_1_2/%d_%d_%d/%d_%d_%d", uuid, name, w.Size[0], w.Size[1], w.Size[2], w.Off[0], w.Off[1], w.Off[2])
-			if i > 0 {
-				url += "?mutate=true"
+			// a group of writes issued concurrently (disjoint blocks: the outcome must not depend on the order)
+			j := i + 1
+			for w.Par != 0 && j < len(c.Writes) && c.Writes[j].Par == w.Par && !c.Writes[j].Child {
+				j++
 			}
-			r := dv.Post(url, blk.ToBytes(arr))
-			switch {
-			case r.Status == 200:
-				status = append(status, 0)
-			case r.Status >= 500 && strings.Contains(string(r.Body), "anic"):
-				status = append(status, 2)
-				failed = true
-			default:
-				status = append(status, 1)
-				failed = true
+			res := make([]uint64, j-i)
+			if j-i == 1 {
+				res[0] = post(i, uuid)
+			} else {
+				var wg sync.WaitGroup
+				for k := i; k < j; k++ {
+					wg.Add(1)
+					go func(k int) {
+						defer wg.Done()
+						time.Sleep(time.Duration(c.Writes[k].Delay) * time.Microsecond)
+						res[k-i] = post(k, uuid)
+					}(k)
+				}
+				wg.Wait()
+				run.Count(fmt.Sprintf("http:concurrent-group:%d", j-i))
 			}
-			run.Count(fmt.Sprintf("http:write-status:%d", r.Status))
-			if failed {
-				break
+			for _, st := range res {
+				status = append(status, st)
+				run.Count(fmt.Sprintf("http:write-status-class:%d", st))
+				if st != 0 {
+					failed = true
+				}
 			}
-			if err := downres.BlockOnUpdating(dvid.UUID(uuid), dvid.InstanceName(name)); err != nil {
-				failed = true
+			i = j
+			if !failed {
+				if err := downres.BlockOnUpdating(dvid.UUID(uuid), dvid.InstanceName(name)); err != nil {
+					failed = true
+				}
 			}
 		}
 		var levels []string
 		if !failed {
-			n := c.WN
+			n := wd
 			off := c.Win
 			for k := 0; k <= c.Max; k++ {
-				url := fmt.Sprintf("/api/node/%s/%s/raw/0_1_2/%d_%d_%d/%d_%d_%d?scale=%d&supervoxels=true", uuid, name, n, n, n, off[0], off[1], off[2], k)
+				url := fmt.Sprintf("/api/node/%s/%s/raw/0_1_2/%d_%d_%d/%d_%d_%d?scale=%d&supervoxels=true", uuid, name, n[0], n[1], n[2], off[0], off[1], off[2], k)
 				r := dv.Get(url)
 				switch {
-				case r.Status == 200 && len(r.Body) == 8*n*n*n:
+				case r.Status == 200 && len(r.Body) == 8*n[0]*n[1]*n[2]:
 					levels = append(levels, fmt.Sprintf("Ok %d", blk.DigestBytes(r.Body)))
 				case r.Status >= 500 && strings.Contains(string(r.Body), "anic"):
 					levels = append(levels, "Panic")
 				default:
 					levels = append(levels, "Err")
 				}
-				n /= 2
 				for j := range off {
+					n[j] /= 2
 					off[j] = floorDiv(off[j], 2)
 				}
 			}
@@ -204,8 +246,9 @@ func main() {
 			ws[i] = fmt.Sprintf("(%s%%Z,%s%%Z,%s%%Z,(%d,%d,%d),%s)", lib.CoqZ(int64(w.Off[0])), lib.CoqZ(int64(w.Off[1])), lib.CoqZ(int64(w.Off[2])),
 				w.Size[0], w.Size[1], w.Size[2], blk.CoqPaints(w.Paints))
 		}
-		term := fmt.Sprintf("(CHttp %d [%s] %s %s %s %d %s [%s])", c.Max, strings.Join(ws, "; "), lib.CoqZ(int64(c.Win[0])), lib.CoqZ(int64(c.Win[1])), lib.CoqZ(int64(c.Win[2])),
-			c.WN, lib.CoqNList(status), strings.Join(levels, "; "))
+		term := fmt.Sprintf("(CHttp %d [%s] %s %s %s (%d,%d,%d) %s [%s])", c.Max, strings.Join(ws, "; "), lib.CoqZ(int64(c.Win[0])), lib.CoqZ(int64(c.Win[1])), lib.CoqZ(int64(c.Win[2])),
+			wd[0], wd[1], wd[2], lib.CoqNList(status), strings.Join(levels, "; "))
+		run.Count(fmt.Sprintf("http:blocksize:%dx%dx%d", bs[0], bs[1], bs[2]))
 		neg := "nonneg"
 		if c.Win[0] < 0 || c.Win[1] < 0 || c.Win[2] < 0 {
 			neg = "negative"
